@@ -109,6 +109,7 @@ M = [
     ('C15', 'revoke-uid-signs-wrong-uid', 'pgpy/pgp.py', "        return self._sign(target, sig, **prefs)", "        return self._sign(target if not isinstance(target, PGPUID) else next(iter(self.userids)), sig, **prefs)"),
     ('C15', 'primary-flag-inverted', 'pgpy/packet/subpackets/signature.py', "        _bytes += self.int_to_bytes(int(self.primary))", "        _bytes += self.int_to_bytes(int(not self.primary))"),
     ('C15', 'add-subkey-binds-with-wrong-primary', 'pgpy/pgp.py', "            if subject.is_primary:\n                _s = subject.subkeys[self.signer].hashdata\n\n            else:\n                _s = subject.hashdata", "            if subject.is_primary:\n                _s = subject.subkeys[self.signer].hashdata\n\n            else:\n                _s = subject.hashdata if self.type != SignatureType.PrimaryKey_Binding else subject._parent.hashdata"),
+    ('C02', 'message-signature-over-decoded-text-back', 'pgpy/pgp.py', "            return bytes(self._message._contents)\n", "            return self.message\n"),
     ('C12', 'salt-remembered-from-first-derivation', 'pgpy/packet/fields.py', "            hsalt = bytes(self.salt)\n", "            hsalt = self.__dict__.setdefault('_salt_seen', bytes(self.salt))\n"),
     ('C16', 'key-flags-cached-on-first-use', 'pgpy/pgp.py', "            return {KeyFlags.Certify} | (user.selfsig.key_flags if user.selfsig else set())", "            return self.__dict__.setdefault('_flagcache', {KeyFlags.Certify} | (user.selfsig.key_flags if user.selfsig else set()))"),
     ('C16', 'enforcement-off-last-subkey-back', 'pgpy/decorators.py', "                    _key = key\n", "                    pass\n"),
